@@ -50,4 +50,28 @@ def c16Accessors : List (String × MemRel) := [
     at least 1-d; `outer` is always 2-d) -/
 def c16NeverZeroD : List String := ["concatenate", "stack", "block", "outer", "linalg.outer"]
 
+/-- handlers allowed a return that hands back what `np.X._implementation` produced without
+    building a unyt object (`HRule.npImpl`): by NumPy's documentation (part of) their result is not
+    a unit-carrying array — booleans, strings, `None`, index arrays, counts, unit vectors, ranks -/
+def c16BareResultHandlers : List String := [
+  "allclose", "isclose", "isin", "array_equal", "array_equiv",   -- booleans
+  "array2string",                                                  -- str
+  "savetxt",                                                       -- None
+  "searchsorted",                                                  -- indices
+  "sinc",                                                          -- dimensionless sin(x)/x as bare ndarray
+  "histogram", "histogram2d", "histogramdd",                       -- the counts
+  "intersect1d",                                                   -- the index arrays of return_indices=True
+  "linalg.eig", "linalg.eigh", "linalg.svd",                       -- eigenvectors / unitary factors
+  "linalg.lstsq",                                                  -- rank
+  "where"                                                          -- one-argument form: index arrays
+]
+
+/-- handlers allowed to delegate to a public NumPy function / a caller-supplied function
+    (`HRule.redispatch`): the class is decided by that callee -/
+def c16DelegatedHandlers : List String := ["apply_over_axes"]
+
+/-- handlers whose return the translator cannot classify (`HRule.unknown`), listed one by one:
+    `array_repr` builds a string from `arr.__class__.__name__` -/
+def c16UnclassifiedHandlers : List String := ["array_repr"]
+
 end Unyt.Ref
